@@ -11,6 +11,7 @@ CONSTANTS
   MaxFetchErr = 1
   MaxClose = 1
   MaxDropped = 0
+  MaxSwallow = 1
 VIEW view
 INVARIANTS TypeOK AtMostOneReply AnnounceOK QuiescentAllReplied QueueDiscipline
 PROPERTY EveryRequestAnswered
